@@ -31,7 +31,7 @@ func (i JsByte) MarshalJSON() ([]byte, error) {
 // unmarshal json
 func (i *JsByte) UnmarshalJSON(b []byte) error {
 	lb := len(b)
-	if lb < 2 {
+	if lb < 2 || b[0] != '"' || b[lb-1] != '"' {
 		return ErrInvalidByteJs
 	}
 
